@@ -3,7 +3,7 @@ C18 — property theorems (and non-vacuity examples). Helper lemmas live in Proo
 
 JWT       handler_runs_only_if_verified, outcome_independent_of_history, jwt_outcome_independent_of_history,
           jwt_handler_runs_iff_valid_credential, rejected_gets_401, claims_forwarded, jwt_rejects_* corollaries,
-          jwt_monitor_sound
+          jwt_monitor_sound; history_unchanged_on_failure, history_counts_the_verifying_secret, history_reset
 content   cs_runs_only_if_signature_covers_request, cs_monitor_sound; witnesses of the two recorded findings:
 security  method_gate_bypass, request_uri_override
 codec     unpad_pad (after fixes/C18-unpad-empty.patch), unpadPinned_pad / unpadPinned_* (witnesses of the pinned code),
@@ -218,6 +218,56 @@ theorem jwt_monitor_sound {V : Type} [DecidableEq V] (f : TokenFacts V) (now : I
     subst hcl
     have := (claims_forwarded _ h secret prev clock _ hc).1
     simp [← hiff, this]
+
+/-! ### TokenParser.history -/
+
+/-- `TokenParser.history` changes only when a token verified: a rejected request leaves the counters alone -/
+theorem history_unchanged_on_failure {C : Type} (verify : String → Parsed C) (h : Hist) (secret prev : String)
+    (clock : Int) (he : (parseToken verify h secret prev clock).2.isErr = true) :
+    (parseToken verify h secret prev clock).1 = h := by
+  unfold parseToken at he ⊢
+  by_cases hp : prev.length > 0
+  · simp only [hp, if_true] at he ⊢
+    by_cases e1 : (verify (firstSecond h secret prev).1).isErr = true
+    · by_cases e2 : (verify (firstSecond h secret prev).2).isErr = true
+      · simp [e1, e2]
+      · simp [e1, e2] at he
+    · simp [e1] at he
+  · simp [hp]
+
+/-- on success with a previous secret configured, exactly the counter of a secret under which the token verified is
+incremented (after the reset test) -/
+theorem history_counts_the_verifying_secret {C : Type} (verify : String → Parsed C) (h : Hist) (secret prev : String)
+    (clock : Int) (hp : prev.length > 0) (hok : (parseToken verify h secret prev clock).2.isErr = false) :
+    ∃ x, (x = secret ∨ x = prev) ∧ (verify x).isErr = false ∧
+      (parseToken verify h secret prev clock).1 = h.increment x clock ∧
+      (parseToken verify h secret prev clock).2 = verify x := by
+  unfold parseToken at hok ⊢
+  simp only [hp, if_true] at hok ⊢
+  have hfs : ((firstSecond h secret prev).1 = secret ∧ (firstSecond h secret prev).2 = prev) ∨
+      ((firstSecond h secret prev).1 = prev ∧ (firstSecond h secret prev).2 = secret) := by
+    unfold firstSecond
+    by_cases hc : h.count secret > h.count prev <;> simp [hc]
+  by_cases e1 : (verify (firstSecond h secret prev).1).isErr = true
+  · by_cases e2 : (verify (firstSecond h secret prev).2).isErr = true
+    · simp [e1, e2] at hok
+    · simp only [e1, e2, if_true]
+      refine ⟨(firstSecond h secret prev).2, ?_, by simpa using e2, rfl, rfl⟩
+      rcases hfs with ⟨_, b⟩ | ⟨_, b⟩ <;> simp [b]
+  · simp only [e1]
+    refine ⟨(firstSecond h secret prev).1, ?_, by simpa using e1, rfl, rfl⟩
+    rcases hfs with ⟨a, _⟩ | ⟨a, _⟩ <;> simp [a]
+
+/-- after the reset time every success starts the counters afresh: only the secret just counted is present -/
+theorem history_reset (h : Hist) (s : String) (clock : Int) (hexp : h.resetTime + h.resetDuration < clock) :
+    (h.increment s clock).counts = [(s, 1)] := by
+  unfold Hist.increment
+  simp [hexp]
+
+example : (parseToken (fun s => if s = "old" then Parsed.tok true (some ()) else .err) {} "new" "old" 5).1.counts
+    = [("old", 1)] := by decide
+example : (parseToken (fun _ => (Parsed.err : Parsed Unit)) { counts := [("old", 3)] } "new" "old" 5).1.counts
+    = [("old", 3)] := by decide
 
 /-! ## content security -/
 
